@@ -35,6 +35,7 @@ import CelloProofs.Lemmas.OwnRefused
 import CelloProofs.Lemmas.OwnProfile
 import CelloProofs.Lemmas.OwnCompose
 import CelloProofs.Lemmas.OwnSeqMoves
+import CelloProofs.Lemmas.OwnAlias
 import CelloProofs.Lemmas.TableIdeal
 import CelloGen.Own
 import CelloGen.Table
@@ -758,6 +759,195 @@ def C05_deep_statement : Prop :=
   ∀ (ops : List Op) (c d : Nat), lookup (run {} ops).1.objs c = none → c < maxConts →
     ∀ x, lookup (run {} ops).1.objs d = some x →
       ∀ y, lookup (step (run {} ops).1 (.copy c d)).1.objs c = some y → ∀ i ∈ ids y.toks, i ∉ ids x.toks
+
+/-! ## Aliased arguments: stored objects passed back into a container
+
+`set(t, k, get(t, k))`, `foreach (key in t) rem(t, key)`, `push(l, get(l, 0))`, `set(a, i, get(a, j))`,
+`set(t, key_from_iteration, get(u, other))`: the element / key / value argument is an object that lives in a container's
+own storage (Cello/OwnAlias.lean: `Ref`, `Src`, `stepAliased`; the argument is read when the code reads it). -/
+
+/-- **C05_aliased_as_resolved.**  For every world, every receiver and every aliased call (push, push_at, set, rem on an
+    Array / List; set, rem on a Table / Tree; each argument a fresh object or a reference to an element, key object or value
+    object of the receiver itself or of any other container): the call is either not executed by the op-file interpreters
+    (`bad`: the receiver is not a container of probe elements, a reference designates nothing, an Array is pushed an element
+    of itself — KF-C04-push-own-element) or it does to the world exactly what the plain call does whose arguments are fresh
+    objects with the payloads the references resolve to BEFORE the call — although the model reads an argument that lies in
+    the receiver when the code reads it (`treeSetSrc`: the value argument after the key was assigned in place). -/
+theorem C05_aliased_as_resolved (w : World) (c : Nat) (t : ACall) :
+    stepAliased w c t = (match lowerCall w c t with
+      | some op => step w op
+      | none => badOp w) := by
+  rw [stepAliased_lower]; rfl
+
+/-- at the level of one map, for every contents and every pair of arguments (no contract): `Table_Set` / `Tree_Set` with
+    stored objects as arguments = the same with the payloads read from the map as it was before the call -/
+theorem C05_aliased_map_set_reads (mk : MapKind) (next : Nat) (kvs : List KV) (ka va : Src) :
+    mapSetSrc mk next kvs ka va =
+      (match ka.read (.map mk kvs), va.read (.map mk kvs) with
+       | some k, some v => some (mapSet mk next kvs k v)
+       | _, _ => none) := mapSetSrc_eq mk next kvs ka va
+
+/-- **C05_conservation for aliased calls**: every in-contract operation of an op file — plain or aliased — conserves
+    identities over all containers, hands out fresh identities, logs what it constructed and finalised and re-establishes
+    the invariant. -/
+theorem C05_conservation_aliased_partial {w : World} (hinv : Inv w) (a : AOp) (hin : inContractA w a = true) :
+    let w' := (stepA w a).1
+    let o := (stepA w a).2
+    allIds w'.objs ++ ids o.retired ~ allIds w.objs ++ ids o.issued ∧
+    FreshFrom w.next o.issued ∧
+    w'.issuedLog = ids o.issued ++ w.issuedLog ∧ w'.retiredLog = ids o.retired ++ w.retiredLog ∧
+    Inv w' := by
+  obtain ⟨op, _, hc, hs⟩ := inContractA_lower hin
+  rw [hs]
+  exact C05_conservation_partial hinv op hc
+
+/-- **C05_history for histories with aliased calls.**  Every history of in-contract operations in which any element / key
+    / value argument may be a stored object (of the receiver or of another container): after every operation the elements
+    ever constructed are exactly the finalised ones plus the ones the containers hold, no identity was constructed or
+    finalised twice or is held in two places, nothing finalised is still contained, every operation was executed, live
+    count = Σ sizes; and after deleting every container every element ever constructed has been finalised exactly once. -/
+theorem C05_history_aliased_partial (ops : List AOp) (h : allInContractA {} ops) :
+    let w := (runA {} ops).1
+    (w.issuedLog ~ w.retiredLog ++ allIds w.objs) ∧
+    w.issuedLog.Nodup ∧ w.retiredLog.Nodup ∧ (allIds w.objs).Nodup ∧
+    (∀ i ∈ w.retiredLog, i ∉ allIds w.objs) ∧ (∀ i ∈ w.retiredLog, i ∈ w.issuedLog) ∧
+    (∀ o ∈ (runA {} ops).2, o.bad = false) ∧
+    liveCount w = (w.objs.map (fun cx => cx.2.toks.length)).sum ∧
+    (let e := (run w (delAllOps w)).1
+     e.objs = [] ∧ e.retiredLog ~ e.issuedLog ∧ e.retiredLog.Nodup ∧ ∀ i ∈ w.issuedLog, i ∈ e.retiredLog) := by
+  obtain ⟨e, hc, _⟩ := runA_lower h
+  have h1 := C05_history_partial _ hc
+  have h2 := C05_live_count_partial _ hc
+  rw [e]
+  exact ⟨h1.1, h1.2.1, h1.2.2.1, h1.2.2.2.1, h1.2.2.2.2.1, h1.2.2.2.2.2.1, h1.2.2.2.2.2.2.1, h2.1, h1.2.2.2.2.2.2.2.2⟩
+
+/-- the store-back idiom `set(t, k, get(t, k))`, as a statement about a model `f` of `set` with `Src` arguments: whenever
+    the map holds a (constructed) pair under `k`, passing the stored value back — with a fresh key object — is executed,
+    finalises nothing, constructs nothing, and the value stored under `k` afterwards is the very same element. -/
+def C05_store_back_statement (f : Nat → List KV → Src → Src → Option (Res (List KV))) : Prop :=
+  ∀ (next k : Nat) (kvs : List KV) (old : KV) (rest : List KV), takeFirst (keyIs k) kvs = some (old, rest) →
+    old.1.id ≠ 0 → old.2.id ≠ 0 →
+    ∃ r, f next kvs (.obj k) (.own (.val k)) = some r ∧ r.retired = [] ∧ r.issued = [] ∧
+      (Cont.map .tree r.val).pick (.val k) = some old.2
+
+/-- **Tree_Set as it is** (`assign` key, then `assign` value, both in place) satisfies it: the contained element is
+    assigned onto itself — never finalised while contained. -/
+theorem C05_store_back_tree : C05_store_back_statement treeSetSrc := by
+  intro next k kvs old rest h hk hv
+  obtain ⟨hf, _⟩ := takeFirst_find? h
+  have hold : old.1.pay = k := (takeKey_some h).2
+  have hr : (Src.own (.val k)).read (.map .tree kvs) = some old.2.pay := by simp [Src.read, Cont.pick, hf]
+  have e := treeSetSrc_eq next kvs (.obj k) (.own (.val k))
+  rw [hr] at e
+  simp only [Src.read] at e
+  refine ⟨_, e, ?_, ?_, ?_⟩
+  · simp [treeSet, h]
+  · simp [treeSet, h, assignProbe, hk, hv]
+  · have h1 : (assignProbe next old.1 k).val = old.1 := by
+      obtain ⟨⟨i1, p1⟩, v1⟩ := old
+      simp only at hold hk
+      simp [assignProbe, hk, hold]
+    have h2 : (assignProbe (next + (assignProbe next old.1 k).issued.length) old.2 old.2.pay).val = old.2 := by
+      obtain ⟨k1, ⟨i2, p2⟩⟩ := old
+      simp only at hv
+      simp [assignProbe, hv]
+    simp only [treeSet, h, h1, h2, Cont.pick, find?_mapInsert]
+    have : keyIs k old = true := by simp [keyIs, hold]
+    simp [this]
+
+/-- …whereas the order "destruct the old value, zero it, assign the new one" (seeded change c05_l: what Table does — but
+    Table has copied both arguments into its swap space before) does NOT: with a Tree holding `5 ↦ 7`, `set(t, 5, get(t, 5))`
+    finalises the contained value, reads zeroed bytes and constructs a blank element (payload 0) in its place. -/
+theorem C05_tree_set_destruct_first_refuted : ¬ C05_store_back_statement treeSetDestructFirstSrc := by
+  intro h
+  obtain ⟨r, hr, hret, _⟩ := h 3 5 [(⟨1, 5⟩, ⟨2, 7⟩)] (⟨1, 5⟩, ⟨2, 7⟩) [] (by decide) (by decide) (by decide)
+  have hw : (treeSetDestructFirstSrc 3 [(⟨1, 5⟩, ⟨2, 7⟩)] (.obj 5) (.own (.val 5))).map
+      (fun r => (r.val, r.issued, r.retired)) = some ([(⟨1, 5⟩, ⟨3, 0⟩)], [⟨3, 0⟩], [⟨2, 7⟩]) := by decide
+  rw [hr] at hw
+  simp only [Option.map_some, Option.some.injEq, Prod.mk.injEq] at hw
+  rw [hret] at hw
+  exact absurd hw.2.2 (by decide)
+
+/-- **Table_Set** with the stored value passed back (`set(t, k, get(t, k))`, any key argument that reads `k`): both arguments
+    are copied into the swap space first — two fresh elements carrying the payloads read from the table as it was —, THEN
+    the resident pair is finalised (once, no longer contained) and replaced. -/
+theorem C05_store_back_table (next k : Nat) (kvs : List KV) (old : KV) (rest : List KV)
+    (h : takeFirst (keyIs k) kvs = some (old, rest)) :
+    ∃ r, tableSetSrc next kvs (.obj k) (.own (.val k)) = some r ∧ r.retired = [old.1, old.2] ∧
+      r.issued = [⟨next, k⟩, ⟨next + 1, old.2.pay⟩] ∧ (Cont.map .table r.val).pick (.val k) = some ⟨next + 1, old.2.pay⟩ := by
+  obtain ⟨hf, _⟩ := takeFirst_find? h
+  have hr : (Src.own (.val k)).read (.map .table kvs) = some old.2.pay := by simp [Src.read, Cont.pick, hf]
+  have e := tableSetSrc_eq next kvs (.obj k) (.own (.val k))
+  rw [hr] at e
+  refine ⟨tableSet next kvs k old.2.pay, e, by simp [tableSet, h], by simp [tableSet, h], ?_⟩
+  simp [tableSet, h, Cont.pick, find?_mapInsert, keyIs]
+
+/-- an op file with aliased calls of every shape, all executed: store-back on a Tree (in place: nothing finalised) and on a
+    Table (replaced: the old pair finalised), the stored key object as key of `set` and of `rem`, a value object as key,
+    elements of a List pushed / inserted / assigned / removed by reference to themselves, one Array record assigned onto
+    another and onto itself, elements of other containers as arguments — 16 live elements, none lost -/
+def demoAliased : List AOp :=
+  [.base (.newMap 0 .tree [(5, 7), (3, 4)]), .aliased 0 (.mset (.pay 5) (.ref ⟨0, .val 5⟩)),
+   .aliased 0 (.mset (.ref ⟨0, .key 3⟩) (.ref ⟨0, .val 5⟩)), .aliased 0 (.mset (.ref ⟨0, .val 3⟩) (.pay 9)),
+   .base (.newMap 1 .table [(1000, 1), (5, 2)]), .aliased 1 (.mset (.pay 1000) (.ref ⟨1, .val 1000⟩)),
+   .aliased 1 (.mset (.ref ⟨1, .key 5⟩) (.ref ⟨0, .val 5⟩)), .aliased 1 (.mrem ⟨1, .key 1000⟩),
+   .base (.newSeq 2 .list [1, 2, 3]), .aliased 2 (.push ⟨2, .elem 0⟩), .aliased 2 (.pushAt 1 ⟨2, .elem (-1)⟩),
+   .aliased 2 (.set 0 ⟨2, .elem 0⟩), .aliased 2 (.set 0 ⟨2, .elem 2⟩), .aliased 2 (.rem ⟨2, .elem 3⟩),
+   .base (.newSeq 3 .array [7, 8, 9]), .aliased 3 (.set 0 ⟨3, .elem 1⟩), .aliased 3 (.set 1 ⟨3, .elem 1⟩),
+   .aliased 3 (.rem ⟨3, .elem 2⟩), .aliased 3 (.push ⟨2, .elem 0⟩), .aliased 2 (.push ⟨3, .elem 0⟩),
+   .aliased 0 (.mset (.ref ⟨2, .elem 0⟩) (.ref ⟨3, .elem 0⟩)), .aliased 0 (.mrem ⟨0, .key 3⟩)]
+
+example : allInContractA {} demoAliased := by
+  simp only [demoAliased, allInContractA]
+  decide
+
+example : liveCount (runA {} demoAliased).1 = 16 ∧ (runA {} demoAliased).2.all (fun o => !o.bad) = true ∧
+    -- store-back on the Tree: nothing constructed, nothing finalised; on the Table: one pair each way
+    ((runA {} demoAliased).2.map (fun o => (o.issued.length, o.retired.length, o.updated.length))).take 8 =
+      [(4, 0, 0), (0, 0, 2), (0, 0, 2), (2, 0, 0), (4, 0, 0), (2, 2, 0), (2, 2, 0), (0, 2, 0)] := by
+  decide
+
+/-- an Array is not pushed an element of itself (the argument would be read after `Array_Reserve_More` / the `memmove`:
+    KF-C04-push-own-element, C04): answered `bad`, outside the contract; the same call with an element of another
+    container is executed -/
+example : let w := (runA {} [.base (.newSeq 0 .array [1, 2]), .base (.newSeq 1 .list [3])]).1
+    inContractA w (.aliased 0 (.push ⟨0, .elem 0⟩)) = false ∧ inContractA w (.aliased 0 (.pushAt 0 ⟨0, .elem 1⟩)) = false ∧
+    inContractA w (.aliased 0 (.push ⟨1, .elem 0⟩)) = true ∧ inContractA w (.aliased 1 (.push ⟨1, .elem 0⟩)) = true := by
+  decide
+
+/-! ## Keys with boundary hash values -/
+
+open Conc in
+/-- **C05_boundary_hashes.**  `C05_moves_table` holds for every hash function; the one the correspondence runs with
+    (`probeHash` = `Probe_Hash` of harness/h_own.c) takes, on the payloads `1000 + 8·b + r`, the boundary values of a 64-bit
+    hash: 2^64-1 (what `Int_Hash` gives for -1; the all-ones NaN pattern), 0, 1, 2^63 (INT64_MIN, -0.0), 2^63-1, 2^32 and its
+    neighbours, the float bit patterns of NaN / inf / 1.0, and `L`, `L-1`, `L+1` with `L` a common multiple of every table
+    size of `Table_Primes` (as the translator reads it) between 2 and 1259 — home slot 0, `nslots-1`, 1 in every one of those tables at
+    once.  Every value is below 2^64, so the `%` of the model (on ℕ) is the `%` of the code (on `uint64_t`); eight payloads
+    share each value. -/
+theorem C05_boundary_hashes :
+    probeHash 1000 = 2 ^ 64 - 1 ∧ probeHash 1008 = 0 ∧ probeHash 1016 = 1 ∧ probeHash 1032 = 2 ^ 63 ∧
+    probeHash 1040 = 2 ^ 63 - 1 ∧ probeHash 1056 = 2 ^ 32 ∧ probeHash 1128 = bhL ∧ probeHash 1136 = bhL - 1 ∧
+    (∀ h ∈ bhTable, h < 2 ^ 64) ∧
+    (∀ b < bhTable.length, ∀ r < bhPer, probeHash (bhBase + bhPer * b + r) = bhTable.getD b 0) ∧
+    (∀ n ∈ CelloGen.Table.primes, 1 < n → n ≤ 1259 → bhL % n = 0 ∧ (bhL - 1) % n = n - 1 ∧ (bhL + 1) % n = 1) ∧
+    (probeHash 999 = 7 * 37 ∧ probeHash 1176 = 8 * 37) := by
+  refine ⟨by decide, by decide, by decide, by decide, by decide, by decide, by decide, by decide, by decide, by decide,
+    by decide, by decide⟩
+
+open Conc in
+/-- a Table history over keys whose hashes are all-ones (1000, 1001), 0 (1008), 2^63 (1032), L-1 (1136): clustering in slot 0
+    / slot nslots-1, growth 5 → 11, replacement, `rem` with backward shift, shrink -/
+def demoBoundary : List MOp :=
+  [.set 1000 1, .set 1008 2, .set 1001 3, .set 1032 4, .set 1136 5, .set 1000 6, .rem 1008, .rem 1000, .set 1137 7, .rem 1136]
+
+open Conc in
+/-- nslots, nitems, the slots of the stored keys and the identities finalised, step by step: no pair is lost or invisible -/
+example : (match tableRunC tableCfgNow probeHash 1 (Cello.Table.new tableCfgNow) demoBoundary with
+    | .ok rs => some (rs.map (fun r => (r.val.n, r.val.nitems, (slotKVs r.val).length, r.retired.map (·.id))))
+    | .error _ => none) =
+  some [(5, 1, 1, []), (5, 2, 2, []), (5, 3, 3, []), (5, 4, 4, []), (11, 5, 5, []), (11, 5, 5, [1, 2]), (5, 4, 4, [3, 4]),
+        (5, 3, 3, [11, 12]), (5, 4, 4, []), (5, 3, 3, [9, 10])] := by decide
 
 /-! ## Known findings: the model, which mirrors the code, violates the full statements -/
 
